@@ -25,7 +25,10 @@ def _has_comm(case) -> bool:
 
 
 def gen(rng, tier, no, wide=False):
-    return C.gen_with(rng, _has_comm, **({"stream_zero": True} if rng.random() < 0.15 else {}))
+    case = C.gen_with(rng, _has_comm, **({"stream_zero": True} if rng.random() < 0.15 else {}))
+    if rng.random() < 0.03:
+        case = C.many_ranks(rng, case)
+    return case
 
 
 def wf(case) -> bool:
